@@ -62,6 +62,10 @@ def case_strategy(draw, max_ops=25):
         op = {"op": k}
         if k == "advance":
             op["dt"] = draw(st.sampled_from(DTS))
+        if k == "other_in":
+            # mostly the user's S10F3; also messages that merely look like the establish exchange (function 13 / 14 on another
+            # stream) or are answered by built-in handlers
+            op["sf"] = draw(st.sampled_from([[10, 3], [10, 3], [10, 3], [2, 13], [5, 13], [7, 13], [2, 14], [6, 14], [1, 1], [2, 17]]))
         if k == "s1f14_refuse":
             # any COMMACK other than one byte 0: non-zero values, or an item without any byte (still not "COMMACK = 0")
             op["commack"] = draw(st.sampled_from([1, 1, 2, 64, 255, "empty"]))
@@ -305,8 +309,15 @@ def run_case(case, observe=None):
                         del pending_s1f13[:]
                         m.state = "REFUSED"  # resolved below from the implementation (WAIT_DELAY now, or WAIT_CRA until T3)
             elif k == "other_in":
-                s, mine, other = rig.request(10, 3, (L, [(B, b"\x01"), (A, b"hello")]))
-                rig._cursor = max(0, rig._cursor - len(other))
+                osf = tuple(op.get("sf", (10, 3)))
+                if osf == (10, 3):
+                    s, mine, other = rig.request(10, 3, (L, [(B, b"\x01"), (A, b"hello")]))
+                    rig._cursor = max(0, rig._cursor - len(other))
+                elif osf[1] % 2:
+                    s, mine, other = rig.request(osf[0], osf[1], (L, []))
+                    rig._cursor = max(0, rig._cursor - len(other))
+                else:
+                    rig.send_sf(osf[0], osf[1], 0, (L, [(B, b"\x00"), (L, [])]))
             sim.settle()
             tick(i)
             f = observe_wire(i)
